@@ -23,12 +23,35 @@ INT_FEAT = gen.Features(ops=gen.INT_OPS, types=(I32, I64), max_depth=6)
 def make_expr(ch, params):
     nf = 8 + ch.below(params.get('nfuncs', 24))
     m = gen.expr_module(ch, INT_FEAT, nf)
+    # idioms in which the RESULT of an operation at one of its boundary operands is consumed inside the same body, so that the C
+    # compiler's value-range reasoning about the helper's result meets the boundary: (clz x) >> 5 as "x == 0", (ctz x) == width,
+    # clz / ctz / popcnt of a literal 0 or -1, rotate and shift by a literal multiple of the width, division by a literal -1
+    from ..wasm import Func
+    idioms = []
+    for t, w, sh in ((I32, 32, 5), (I64, 64, 6)):
+        c = lambda v, t=t: ('%s.const' % t, v & ((1 << (32 if t == I32 else 64)) - 1))
+        for op in ('clz', 'ctz'):
+            idioms.append((t, [('local.get', 0), ('%s.%s' % (t, op),), c(sh), ('%s.shr_u' % t,)]))
+            idioms.append((t, [('local.get', 0), ('%s.%s' % (t, op),), c(w), ('%s.eq' % t,)] + ([('i64.extend_i32_u',)] if t == I64 else [])))
+            idioms.append((t, [c(0), ('%s.%s' % (t, op),), ('local.get', 0), ('%s.add' % t,)]))
+        idioms.append((t, [c(-1), ('%s.popcnt' % t,), ('local.get', 0), ('%s.xor' % t,)]))
+        idioms.append((t, [('local.get', 0), ('%s.clz' % t,), ('local.get', 0), ('%s.ctz' % t,), ('%s.add' % t,), c(2 * w), ('%s.ge_u' % t,)] + ([('i64.extend_i32_u',)] if t == I64 else [])))
+        idioms.append((t, [('local.get', 0), c(w * ch.pick((0, 1, 2))), ('%s.%s' % (t, ch.pick(('rotl', 'rotr', 'shl', 'shr_s'))),)]))
+        idioms.append((t, [('local.get', 0), c(-1), ('%s.%s' % (t, ch.pick(('rem_s', 'div_u', 'rem_u'))),)]))
+    for k in range(6):
+        t, body = idioms[ch.below(len(idioms))]
+        m.funcs.append(Func(m.type_index((t,), (t,)), [], body))
+        m.exports.append((b'idiom%d' % k, 'func', len(m.funcs) - 1))
     script = [('inst', 0)]
     fex = [(n, i) for n, kd, i in m.exports if kd == 'func']
     for e, (n, fi) in enumerate(fex):
         ps = m.func_type(fi)[0]
         for _ in range(params.get('nargs', 12) if ps else 1):
             script.append(('call', 0, e, gen.gen_args(ch, ps)))
+        if n.startswith(b'idiom'):
+            script.append(('call', 0, e, [0]))
+            script.append(('call', 0, e, [(1 << (32 if ps[0] == I32 else 64)) - 1]))
+            script.append(('call', 0, e, [1 << (31 if ps[0] == I32 else 63)]))
     return m, script, {'nontrivial_fn': f1.hazards_nontrivial, 'ninst': 1, 'independent': True}
 
 
@@ -48,6 +71,9 @@ def plan(tier, seed):
         nslices = 16
         ncases, nexpr = 300, 32
         expr_ccs = ['gcc-O0', 'clang-O2', 'gcc-O2', 'clang-O0', 'gcc-O3', 'clang-O3', 'gcc-O0-gnu89', 'clang-O2-gnu89']
+    if f1.cpu_has_lzcnt_bmi():
+        flat_ccs = flat_ccs + ['gcc-O2-lzcnt', 'clang-O2-lzcnt']
+        expr_ccs = expr_ccs + ['clang-O2-lzcnt', 'gcc-O2-lzcnt']
     # flat: slices of the operator list; each slice under every compiler of the tier (quick: nobuiltin only for bit ops)
     slices = [ops[i::nslices] for i in range(nslices)]
     for cc in flat_ccs:
@@ -56,6 +82,8 @@ def plan(tier, seed):
                 sl = [o for o in sl if o.split('.')[1] in ('clz', 'ctz', 'popcnt', 'rotl', 'rotr')]
             if 'uchar' in cc:
                 sl = [o for o in sl if 'extend' in o or 'wrap' in o]
+            if 'lzcnt' in cc:
+                sl = [o for o in sl if o.split('.')[1] in ('clz', 'ctz', 'popcnt')]
             if sl:
                 jobs.append(('flat', {'ops': sl, 'cc': cc, 'nrandom': nrandom, 'full_pairs': full}))
     for i in range(nexpr):
